@@ -1128,3 +1128,50 @@ def traced_decode(spec, header_only, data, budget=2_000_000, crypto=None):
     finally:
         sys.settrace(old)
     return out, counts[0], counts[1]
+
+
+# =============================================================================================
+# 7. real crypto contexts (crypto.Crypto with AES-CBC and HMAC) for the oracles
+# =============================================================================================
+
+REAL_SUITES = [(128, 2), (256, 2), (128, 12), (256, 12), (128, 14), (256, 14)]   # (AES key bits, IntegId)
+
+
+def real_crypto(rng, keybits=128, integ_id=2):
+    import crypto as C
+    import message as M
+    cipher = C.Cipher(M.Transform(M.Transform.Type.ENCR, M.Transform.EncrId.ENCR_AES_CBC, keybits))
+    integ = C.Integrity(M.Transform(M.Transform.Type.INTEG, integ_id))
+    return C.Crypto(cipher, rnd_bytes(rng, keybits // 8), integ, rnd_bytes(rng, integ.key_size), None, None)
+
+
+def real_spec(cr, iv=None):
+    """A `spec` list describing a real context for rfc_protected (sizes and keys)."""
+    return [cr.cipher.block_size, cr.integrity.hash_size, cr.sk_e, cr.sk_a, iv or bytes(cr.cipher.block_size)]
+
+
+def real_prims(cr):
+    """Independent implementations of the negotiated primitives (cryptography / hmac / hashlib directly)."""
+    import hashlib
+    import hmac
+    from cryptography.hazmat.primitives.ciphers import Cipher as _C, algorithms, modes
+    digest = {20: hashlib.sha1, 32: hashlib.sha256, 64: hashlib.sha512}[cr.integrity.key_size]
+
+    def enc(k, iv, p):
+        e = _C(algorithms.AES(k), modes.CBC(iv)).encryptor()
+        return e.update(p) + e.finalize()
+
+    def dec(k, iv, c):
+        d = _C(algorithms.AES(k), modes.CBC(iv)).decryptor()
+        return d.update(c) + d.finalize()
+
+    def mac(k, d):
+        return hmac.new(k, d, digest).digest()
+    return enc, dec, mac
+
+
+PROTOCOL_ERRORS = ('InvalidSyntax', 'UnsupportedCriticalPayload')
+
+
+def real_decode(cr, header_only, data, budget=3_000_000):
+    return traced_decode(None, header_only, data, budget=budget, crypto=cr)
